@@ -3,3 +3,6 @@ import Grol.Suite
 import Grol.Trie
 import Grol.TrieSuite
 import Grol.Eval.Suite
+import Grol.Token
+import Grol.Lexer
+import Grol.LexSuite
